@@ -97,6 +97,17 @@ def step (st : Worker.St) (toks : List String) : Worker.St × String :=
       | some s1 => Worker.apply { st with s := s1 } (.deliver ts)
       | none => (st, "disabled " ++ Worker.obs st.s)
     | _, _, _ => (st, "bad-op")
+  | ["godeliver", q, ts] =>
+    -- one pass of the consumer, then the worker's step: appends at the tail commute with what the worker does
+    -- at the head (the queue is not empty, or the step only applies a plain result)
+    match q.toNat?, Worker.pairs? ts with
+    | some q, some ts =>
+      match ShellOp.Worker.step st.cfg st.s (.deliver ts) with
+      | some s1 => match Worker.advance st.cfg s1 q .step with
+        | some s' => ({ st with s := s' }, Worker.obs s')
+        | none => (st, "disabled " ++ Worker.obs st.s)
+      | none => (st, "disabled " ++ Worker.obs st.s)
+    | _, _ => (st, "bad-op")
   | "schedfan" :: args =>
     -- EnableScheduleBindings over the bindings the loader produced, then HandleEvent for one crontab:
     -- the (binding, queue) infos, sorted (Go walks the map in any order)
